@@ -25,6 +25,7 @@ type armInfo struct {
 }
 
 type rejectInfo struct {
+	Cond     string // the rejecting condition (identifies the instance: several arms may share one return statement)
 	Leaf     *ir.Leaf
 	Kind     string // malformed | duplicate | bad-code | foreign-name | propagate
 	Sentinel string // name of the cvsserr variable wrapped, or "" for propagate
@@ -341,7 +342,7 @@ func (e *Env) modelDecodeOne(l *facts.Level, rule string) *decodeOneModel {
 			continue
 		}
 		last := lf.Guards[len(lf.Guards)-1]
-		ri := rejectInfo{Leaf: lf, Sentinel: sent}
+		ri := rejectInfo{Leaf: lf, Sentinel: sent, Cond: clip(last.Pretty())}
 		switch {
 		case last.Key() == ir.NotCond(gLen).Key() || last.Key() == ir.NotCond(g0).Key() || last.Key() == ir.NotCond(g1).Key():
 			ri.Kind = "malformed"
@@ -418,7 +419,8 @@ func (e *Env) modelDecodeOne(l *facts.Level, rule string) *decodeOneModel {
 			}
 		}
 		m.Rejects = append(m.Rejects, ri)
-		c.Ok("reject-path", fmt.Sprintf("%s %s path returning at %s", who, ri.Kind, e.P.Pos(lf.Pos)), e.P.Pos(lf.Pos), "rejected with an error; nothing recorded in names")
+		// one instance per rejecting condition (not per return statement: several arms may share one)
+		c.Ok("reject-path", fmt.Sprintf("%s %s %s path on %s", who, ri.Kind, ri.Arm, ri.Cond), e.P.Pos(lf.Pos), "rejected with an error; nothing recorded in names")
 	}
 	m.ok = allOK
 	return m
